@@ -28,7 +28,13 @@ pub fn get_child_nodes<TStorage: ?Sized + ReadableStorageTraits + ListableStorag
         let path: NodePath = prefix
             .try_into()
             .map_err(|err: NodePathError| StorageError::Other(err.to_string()))?;
-        let child_metadata = Node::get_metadata(storage, &path, &MetadataRetrieveVersion::Default)?;
+        let child_metadata =
+            match Node::get_metadata(storage, &path, &MetadataRetrieveVersion::Default) {
+                Ok(metadata) => metadata,
+                // A prefix without metadata is not a node (e.g. chunks left by an array whose metadata was erased)
+                Err(NodeCreateError::MissingMetadata) => continue,
+                Err(err) => return Err(err),
+            };
 
         let path: NodePath = prefix
             .try_into()
